@@ -22,7 +22,9 @@ EXTENDS Iavl
 
 \* TRUE: the code as repaired (DeleteVersionsFrom invalidates the label of the fast index);
 \* FALSE: the code as found, kept so that TLC can re-derive the counter-example of C07b
-CONSTANT FixLvfoLabel
+CONSTANT FixLvfoLabel,
+         Exhaustive      \* TRUE: breadth-first generation - every transition prints the shortest path to
+                         \* its source state plus the step (binding A-exh: one implementation test per transition)
 
 VARIABLES ovl,      \* uncommitted fast-node overlay of the live handle: Keys -> NoE | Rm | [val, ver]
           fidx,     \* persisted fast index: Keys -> NoE | [val, ver]
@@ -99,6 +101,7 @@ OvlApply(ov, cs, n) ==
 PLog == phist' = IF Record THEN Append(phist, [label |-> label', built |-> built', stale |-> stale',
                     fidx |-> {[k |-> k, val |-> fidx'[k].val, ver |-> fidx'[k].ver] : k \in {x \in Keys : fidx'[x] # NoE}},
                     disk |-> Disk(saved', first', latest')]) ELSE phist
+PEmit == Exhaustive => PrintT(<<"TRACE", ToJson([h |-> hist', p |-> phist'])>>)
 
 SInit == /\ Init /\ ovl = NoOvl /\ fidx = [k \in Keys |-> NoE]
          /\ phist = (IF Record THEN <<[label |-> (IF fast THEN 0 ELSE -1), built |-> 0, stale |-> FALSE, fidx |-> {}, disk |-> {}]>> ELSE <<>>)
@@ -107,17 +110,17 @@ SInit == /\ Init /\ ovl = NoOvl /\ fidx = [k \in Keys |-> NoE]
 
 SSet(k, v) == /\ Set(k, v)
               /\ ovl' = IF fast THEN [ovl EXCEPT ![k] = [val |-> v, ver |-> version + 1]] ELSE ovl
-              /\ UNCHANGED <<fidx, label, built, stale>> /\ PLog
-SSetNil(k) == SetNil(k) /\ UNCHANGED <<ovl, fidx, label, built, stale>> /\ PLog
+              /\ UNCHANGED <<fidx, label, built, stale>> /\ PLog /\ PEmit
+SSetNil(k) == SetNil(k) /\ UNCHANGED <<ovl, fidx, label, built, stale>> /\ PLog /\ PEmit
 SRemove(k) == /\ Remove(k)
               /\ ovl' = IF fast /\ RemT(work, k).rem THEN [ovl EXCEPT ![k] = Rm] ELSE ovl
-              /\ UNCHANGED <<fidx, label, built, stale>> /\ PLog
+              /\ UNCHANGED <<fidx, label, built, stale>> /\ PLog /\ PEmit
 \* a commit that creates a version writes the overlay and the label; a no-op or failed commit keeps them
 SaveIdx(ov) ==
   IF Target \in Retained THEN ovl' = ov /\ UNCHANGED <<fidx, label, built, stale>>
   ELSE IF fast THEN fidx' = CommitIdx(fidx, ov) /\ label' = Target /\ built' = Target /\ ovl' = NoOvl /\ stale' = stale
   ELSE ovl' = NoOvl /\ UNCHANGED <<fidx, label, built, stale>>
-SSave == SaveVersion /\ SaveIdx(ovl) /\ PLog
+SSave == SaveVersion /\ SaveIdx(ovl) /\ PLog /\ PEmit
 SSaveCS(cs) ==
   /\ SaveChangeSet(cs)
   /\ IF Dirty THEN UNCHANGED <<ovl, fidx, label, built, stale>>
@@ -125,17 +128,17 @@ SSaveCS(cs) ==
               n == IF r.bad # 0 THEN r.bad - 1 ELSE Len(cs)
               ov == IF fast THEN OvlApply(ovl, cs, n) ELSE ovl IN
           IF r.bad # 0 THEN ovl' = ov /\ UNCHANGED <<fidx, label, built, stale>> ELSE SaveIdx(ov)
-  /\ PLog
-SRollback == Rollback /\ ovl' = NoOvl /\ UNCHANGED <<fidx, label, built, stale>> /\ PLog
+  /\ PLog /\ PEmit
+SRollback == Rollback /\ ovl' = NoOvl /\ UNCHANGED <<fidx, label, built, stale>> /\ PLog /\ PEmit
 SReopen(f) ==
   /\ Reopen(f) /\ ovl' = NoOvl
   /\ (IF f THEN SetPhys(Enable(saved, latest, latest, Phys)) ELSE UNCHANGED <<fidx, label, built, stale>>)
-  /\ PLog
+  /\ PLog /\ PEmit
 \* a new handle that loads an older version directly
 SReopenAt(f, t) ==
   /\ ReopenAt(f, t) /\ ovl' = NoOvl
   /\ (IF f THEN SetPhys(Enable(saved, t, latest, Phys)) ELSE UNCHANGED <<fidx, label, built, stale>>)
-  /\ PLog
+  /\ PLog /\ PEmit
 SLoad(t) ==
   /\ LoadVersion(t)
   /\ LET tt == IF t = 0 THEN latest ELSE t IN
@@ -143,7 +146,7 @@ SLoad(t) ==
      THEN /\ ovl' = NoOvl
           /\ (IF fast THEN SetPhys(Enable(saved, tt, latest, Phys)) ELSE UNCHANGED <<fidx, label, built, stale>>)
      ELSE UNCHANGED <<ovl, fidx, label, built, stale>>
-  /\ PLog
+  /\ PLog /\ PEmit
 \* rollback: LoadVersion(t), erase the later versions (which invalidates the label), enable again
 SLvfo(t) ==
   /\ LoadVersionForOverwriting(t)
@@ -158,16 +161,16 @@ SLvfo(t) ==
              ELSE /\ fidx' = fidx /\ built' = built /\ stale' = stale
                   /\ label' = IF FixLvfoLabel /\ label # -1 /\ t < latest THEN 0 ELSE label
      ELSE UNCHANGED <<ovl, fidx, label, built, stale>>
-  /\ PLog
-SExpOpen(t) == ExportOpen(t) /\ UNCHANGED <<ovl, fidx, label, built, stale>> /\ PLog
-SExpClose(t) == ExportClose(t) /\ UNCHANGED <<ovl, fidx, label, built, stale>> /\ PLog
-SDelTo(n) == DeleteVersionsTo(n) /\ UNCHANGED <<ovl, fidx, label, built, stale>> /\ PLog
+  /\ PLog /\ PEmit
+SExpOpen(t) == ExportOpen(t) /\ UNCHANGED <<ovl, fidx, label, built, stale>> /\ PLog /\ PEmit
+SExpClose(t) == ExportClose(t) /\ UNCHANGED <<ovl, fidx, label, built, stale>> /\ PLog /\ PEmit
+SDelTo(n) == DeleteVersionsTo(n) /\ UNCHANGED <<ovl, fidx, label, built, stale>> /\ PLog /\ PEmit
 SImport(t, f) ==
   /\ ImportSwitch(t, f) /\ ovl' = NoOvl
   /\ (IF f THEN fidx' = IndexOf(saved[t], t) /\ label' = t /\ built' = t
       ELSE fidx' = [k \in Keys |-> NoE] /\ label' = -1 /\ built' = 0)
   /\ stale' = FALSE
-  /\ PLog
+  /\ PLog /\ PEmit
 
 ---------------------------------------------------------------------------
 (* reads that consult the index, as the code answers them *)
